@@ -67,13 +67,13 @@ theorem up_procData (w : W) (ct : Slock.Value.CmdType) (c : Cmd) (f : Option Byt
     · rename_i cell' _
       split
       · exact (RecsUp.modRec ({ w.k with cell := cell' } : Key) rid (fun r => { r with aofData := true }) (by intro _; rfl)
-          (by intro _ h; exact ⟨h.pos, h.hold, h.ended⟩)).trans (RecsUp.of_eq rfl)
+          (by intro _ h; exact ⟨h.pos, h.hold, h.ended, h.fin⟩)).trans (RecsUp.of_eq rfl)
       · exact RecsUp.of_eq rfl
 
 theorem up_aofLockData (k : Key) (b : Bool) (rid : Nat) : RecsUp (aofLockData k b rid).1 k := by
   unfold aofLockData
   split
-  · exact RecsUp.modRec _ rid _ (fun _ => rfl) (fun _ h => ⟨h.pos, h.hold, h.ended⟩)
+  · exact RecsUp.modRec _ rid _ (fun _ => rfl) (fun _ h => ⟨h.pos, h.hold, h.ended, h.fin⟩)
   · split
     · split
       · exact RecsUp.of_eq rfl
@@ -86,8 +86,8 @@ theorem up_pushLockAof (w : W) (rid flag : Nat) : RecsUp (w.pushLockAof rid flag
   · exact RecsUp.refl _
   · simp only []
     split
-    · exact RecsUp.modRec _ rid _ (fun _ => rfl) (fun _ h => ⟨h.pos, h.hold, h.ended⟩)
-    · exact (RecsUp.modRec (aofLockData w.k true rid).1 rid _ (by intro _; rfl) (by intro _ h; exact ⟨h.pos, h.hold, h.ended⟩)).trans (up_aofLockData _ _ _)
+    · exact RecsUp.modRec _ rid _ (fun _ => rfl) (fun _ h => ⟨h.pos, h.hold, h.ended, h.fin⟩)
+    · exact (RecsUp.modRec (aofLockData w.k true rid).1 rid _ (by intro _; rfl) (by intro _ h; exact ⟨h.pos, h.hold, h.ended, h.fin⟩)).trans (up_aofLockData _ _ _)
 
 theorem up_pushLockAofN (n : Nat) (w : W) (rid : Nat) : RecsUp (W.pushLockAofN n w rid).k w.k := by
   induction n generalizing w with
@@ -99,8 +99,8 @@ theorem up_pushUnLockAof (w : W) (rid : Nat) (lc : Cmd) (fa ia : Bool) (flag : N
   split
   · exact RecsUp.refl _
   · split
-    · exact RecsUp.modRec _ rid _ (fun _ => rfl) (fun _ h => ⟨h.pos, h.hold, h.ended⟩)
-    · exact (RecsUp.modRec (aofLockData w.k false rid).1 rid _ (by intro _; rfl) (by intro _ h; exact ⟨h.pos, h.hold, h.ended⟩)).trans (up_aofLockData _ _ _)
+    · exact RecsUp.modRec _ rid _ (fun _ => rfl) (fun _ h => ⟨h.pos, h.hold, h.ended, h.fin⟩)
+    · exact (RecsUp.modRec (aofLockData w.k false rid).1 rid _ (by intro _; rfl) (by intro _ h; exact ⟨h.pos, h.hold, h.ended, h.fin⟩)).trans (up_aofLockData _ _ _)
 
 theorem up_when (w : W) (b : Bool) (f : W → W) (h : RecsUp (f w).k w.k) : RecsUp (w.when b f).k w.k := by
   cases b
@@ -110,19 +110,13 @@ theorem up_when (w : W) (b : Bool) (f : W → W) (h : RecsUp (f w).k w.k) : Recs
 theorem up_journalLock (w : W) (rid flag : Nat) : RecsUp (w.journalLock rid flag).k w.k := up_when _ _ _ (up_pushLockAof _ _ _)
 theorem up_journalUnlock (w : W) (rid : Nat) (fa ia : Bool) (flag : Nat) : RecsUp (w.journalUnlock rid fa ia flag).k w.k :=
   up_when _ _ _ (up_pushUnLockAof _ _ _ _ _ _)
-theorem up_addTimeOut (w : W) (rid : Nat) : RecsUp (w.addTimeOut rid).k w.k := RecsUp.modRec _ rid _ (fun _ => rfl) (fun _ h => ⟨h.pos, h.hold, h.ended⟩)
-theorem up_schedExpried (w : W) (rid : Nat) : RecsUp (w.schedExpried rid).k w.k :=
-  RecsUp.modRec _ rid _ (fun _ => rfl) (fun _ h => ⟨h.pos, fun _ => rfl, fun hf => by simp [Rec.armE] at hf⟩)
-theorem up_addExpried (w : W) (rid : Nat) : RecsUp (w.addExpried rid).k w.k := by
-  unfold W.addExpried
-  simp only []
-  exact (up_when _ _ _ (up_pushLockAofN _ _ _)).trans (up_schedExpried _ _)
+theorem up_addTimeOut (w : W) (rid : Nat) : RecsUp (w.addTimeOut rid).k w.k := RecsUp.modRec _ rid _ (fun _ => rfl) (fun _ h => ⟨h.pos, h.hold, h.ended, h.fin⟩)
 theorem up_ref (w : W) (rid : Nat) : RecsUp (w.ref rid).k w.k :=
-  RecsUp.modRec _ rid _ (fun _ => rfl) (fun r h => ⟨Nat.le_succ_of_le h.pos, h.hold, h.ended⟩)
+  RecsUp.modRec _ rid _ (fun _ => rfl) (fun r h => ⟨Nat.le_succ_of_le h.pos, h.hold, h.ended, h.fin⟩)
 theorem up_grantNoHold (w : W) (rid : Nat) : RecsUp (w.grantNoHold rid).k w.k := by
   unfold W.grantNoHold
   simp only []
-  exact (RecsUp.modRec _ rid (fun r => { r with data := none }) (by intro _; rfl) (by intro _ h; exact ⟨h.pos, h.hold, h.ended⟩)).trans
+  exact (RecsUp.modRec _ rid (fun r => { r with data := none }) (by intro _; rfl) (by intro _ h; exact ⟨h.pos, h.hold, h.ended, h.fin⟩)).trans
     ((up_when _ _ (·.pushLockAof rid 0) (up_pushLockAof _ _ _)).trans (up_procData _ _ _ _ _))
 
 /-! ### the working invariant -/
@@ -139,6 +133,15 @@ theorem Nz.weaken {w : W} (h : Nz w none) (x : Option Nat) : Nz w x := ⟨h.nd, 
 /-- editing the exempt record only -/
 theorem Nz.modR_ex {w : W} (rid : Nat) (h : Nz w (some rid)) (f : Rec → Rec) (hf : ∀ r, (f r).rid = r.rid) : Nz (w.modR rid f) (some rid) :=
   ⟨h.nd.modRec rid f hf, NZx.modRec_ex rid h.nz f hf⟩
+
+/-- `AddExpried` of the exempt record (arming an expiry entry is in order for a hold only) -/
+theorem Nz.addExpried_ex {w : W} (rid : Nat) (h : Nz w (some rid)) : Nz (w.addExpried rid) (some rid) := by
+  unfold W.addExpried
+  simp only []
+  have h1 : Nz (w.schedExpried rid) (some rid) := by
+    have := h.modR_ex rid (Rec.armE (Slock.Engine.wheelAdd w.db.eCheck w.db.seq (w.k.getR rid).expT (w.k.getR rid).eChecked)) (fun _ => rfl)
+    exact ⟨this.nd, this.nz⟩
+  exact h1.of_up (up_when _ _ _ (up_pushLockAofN _ _ _))
 
 theorem Nz.modK_eq {w : W} {x : Option Nat} (h : Nz w x) (f : Key → Key) (e : (f w.k).recs = w.k.recs) : Nz (w.modK f) x :=
   ⟨h.nd.of_recs e, h.nz.of_recs e⟩
@@ -169,7 +172,7 @@ theorem Nz.freeCheck_clear {w : W} (rid : Nat) (h : Nz w (some rid)) : Nz (w.fre
 theorem Nz.dropT {w : W} {x : Option Nat} (h : Nz w x) (rid : Nat) : Nz (w.dropT rid) x := by
   unfold W.dropT
   exact (h.of_up (w' := w.modR rid (fun r => { r with tSched := none })) (RecsUp.modRec _ rid _ (fun _ => rfl)
-    (fun _ h => ⟨h.pos, h.hold, h.ended⟩))).unrefCheck rid
+    (fun _ h => ⟨h.pos, h.hold, h.ended, h.fin⟩))).unrefCheck rid
 
 /-- dropping the expiry entry of the exempt record -/
 theorem Nz.dropE_ex {w : W} (rid : Nat) (h : Nz w (some rid)) : Nz (w.dropE rid) (some rid) := by
@@ -189,7 +192,7 @@ theorem Nz.removeLongT {w : W} {ex : Nat → Int} {x : Option Nat} (hex : ∀ y,
   have hw : 1 ≤ (w.k.getR rid).wheelRefs := wheel_of_t ht
   have hn1 : (w.k.modRec rid fun r => { r with tSched := none }).NoDup := h.nd.modRec rid _ (by intro _; rfl)
   have hz1 : NZx (w.k.modRec rid fun r => { r with tSched := none }) x :=
-    h.nz.modRec rid (fun r => { r with tSched := none }) (by intro _; rfl) (by intro _ h; exact ⟨h.pos, h.hold, h.ended⟩)
+    h.nz.modRec rid (fun r => { r with tSched := none }) (by intro _; rfl) (by intro _ h; exact ⟨h.pos, h.hold, h.ended, h.fin⟩)
   refine ⟨hn1.modRec rid _ (by intro _; rfl), ?_⟩
   refine NZx.unrefOnly hn1.nd hz1 rid ?_
   intro _
@@ -240,7 +243,8 @@ theorem pushLockAofN_proj {α : Type} (π : Rec → α) (hπ : ∀ r b, π { r w
 
 /-- after `AddExpried(rid)` the record has an expiry entry and is not marked ended -/
 theorem getR_addExpried (w : W) (rid : Nat) (hh : w.k.hasRec rid) :
-    ((w.addExpried rid).k.getR rid).eSched.isSome = true ∧ ((w.addExpried rid).k.getR rid).expried = false := by
+    ((w.addExpried rid).k.getR rid).eSched.isSome = true ∧ ((w.addExpried rid).k.getR rid).expried = false ∧
+    ((w.addExpried rid).k.getR rid).depth = (w.k.getR rid).depth := by
   have h1 : (w.schedExpried rid).k.getR rid =
       Rec.armE (Slock.Engine.wheelAdd w.db.eCheck w.db.seq (w.k.getR rid).expT (w.k.getR rid).eChecked) (w.k.getR rid) :=
     getR_modRec_same _ _ _ (fun _ => rfl) hh
@@ -249,8 +253,9 @@ theorem getR_addExpried (w : W) (rid : Nat) (hh : w.k.hasRec rid) :
   split
   · have a := pushLockAofN_proj (·.eSched) (fun _ _ => rfl) (fun _ _ => rfl) (w.k.getR rid).depth (w.schedExpried rid) rid rid
     have b := pushLockAofN_proj (·.expried) (fun _ _ => rfl) (fun _ _ => rfl) (w.k.getR rid).depth (w.schedExpried rid) rid rid
-    rw [a, b, h1]; exact ⟨rfl, rfl⟩
-  · rw [h1]; exact ⟨rfl, rfl⟩
+    have c := pushLockAofN_proj (·.depth) (fun _ _ => rfl) (fun _ _ => rfl) (w.k.getR rid).depth (w.schedExpried rid) rid rid
+    rw [a, b, c, h1]; exact ⟨rfl, rfl, rfl⟩
+  · rw [h1]; exact ⟨rfl, rfl, rfl⟩
 
 theorem Nz.grant {w : W} (rid : Nat) (h : Nz w (some rid)) (hh : w.k.hasRec rid) : Nz (w.grant rid) none := by
   unfold W.grant
@@ -258,8 +263,11 @@ theorem Nz.grant {w : W} (rid : Nat) (h : Nz w (some rid)) (hh : w.k.hasRec rid)
   have hf := addLockF_fields w.db w.k
   have a1 := nz_addLock_ex h.nd rid (addLockF w.db w.k) (fun r => (hf r).1) h.nz
   have l2 : Nz ((w.addLock rid).modK incLocked) (some rid) := ⟨a1.1.of_recs rfl, a1.2.of_recs rfl⟩
-  obtain ⟨_, hh1⟩ := keep_addLock w.k rid (addLockF w.db w.k) (fun r => (hf r).1) (fun r => (hf r).2.2.2.2.2.1) hh
+  obtain ⟨hg1, hh1⟩ := keep_addLock w.k rid (addLockF w.db w.k) (fun r => (hf r).1) (fun r => (hf r).2.2.2.2.2.1) hh
   have hh2 : ((w.addLock rid).modK incLocked).k.hasRec rid := hh1
+  have hd2 : (((w.addLock rid).modK incLocked).k.getR rid).depth = 1 := by
+    show ((w.k.addLock rid (addLockF w.db w.k)).getR rid).depth = 1
+    rw [hg1]; exact (hf _).2.2.2.2.2.1
   -- value op, data consumed, expiry entry
   have l3 := l2.of_up (up_procData ((w.addLock rid).modK incLocked) .lock (((w.addLock rid).modK incLocked).k.getR rid).cmd
     (frameOf (((w.addLock rid).modK incLocked).k.getR rid).cmd (((w.addLock rid).modK incLocked).k.getR rid).data) rid)
@@ -267,14 +275,22 @@ theorem Nz.grant {w : W} (rid : Nat) (h : Nz w (some rid)) (hh : w.k.hasRec rid)
     (frameOf (((w.addLock rid).modK incLocked).k.getR rid).cmd (((w.addLock rid).modK incLocked).k.getR rid).data) rid rid).1.mpr hh2
   have l4 := l3.modR_ex rid (fun r => { r with data := none }) (fun _ => rfl)
   have hh4 := (hasRec_modR _ rid rid (fun r => { r with data := none }) (by intro _; rfl)).mpr hh3
-  have l5 := l4.of_up (up_addExpried _ rid)
+  have l5 := l4.addExpried_ex rid
   have hh5 := (hasRec_of_ids (ids_addExpried _ rid) rid).mpr hh4
-  obtain ⟨e5, x5⟩ := getR_addExpried _ rid hh4
+  obtain ⟨e5, x5, d5⟩ := getR_addExpried _ rid hh4
+  have hd4 : (((((w.addLock rid).modK incLocked).procData .lock (((w.addLock rid).modK incLocked).k.getR rid).cmd
+      (frameOf (((w.addLock rid).modK incLocked).k.getR rid).cmd (((w.addLock rid).modK incLocked).k.getR rid).data) rid).modR rid
+      (fun r => { r with data := none })).k.getR rid).depth = 1 := by
+    rw [modR_k, getR_modRec_proj (·.depth) _ rid rid (fun r => { r with data := none }) (by intro _; rfl) (by intro _; rfl)]
+    rw [(keep_procData ((w.addLock rid).modK incLocked) .lock (((w.addLock rid).modK incLocked).k.getR rid).cmd
+      (frameOf (((w.addLock rid).modK incLocked).k.getR rid).cmd (((w.addLock rid).modK incLocked).k.getR rid).data) rid rid).2.2.2.2.2.2.1]
+    exact hd2
   have l6 := l5.modR_ex rid (fun r => { r with refCount := r.refCount + 1 }) (fun _ => rfl)
   have g6 := getR_modRec_same _ rid (fun r => { r with refCount := r.refCount + 1 }) (fun _ => rfl) hh5
   have l7 : Nz (_ : W) none := l6.clear rid (fun _ => by
     rw [modR_k, g6]
-    exact ⟨Nat.le_add_left 1 _, fun _ => e5, fun hx => by simp only [] at hx; rw [x5] at hx; exact absurd hx (by simp)⟩)
+    exact ⟨Nat.le_add_left 1 _, fun _ => e5, fun hx => by simp only [] at hx; rw [x5] at hx; exact absurd hx (by simp),
+      fun hz => by simp only [] at hz; rw [d5, hd4] at hz; exact absurd hz (by simp)⟩)
   exact ⟨l7.nd, l7.nz⟩
 
 end Slock.Engine2
